@@ -9,7 +9,9 @@ ASCII = [chr(i) for i in range(128)]
 CLS = ["a", "Z", "0", "~", ".", "-", "/", "?", "#", "@", ":", "[", "]", "&", "=", "+", ";", "!", " ", '"',
        "\x00", "\x7f", "%", "\\", "|", "^", "{", "<", "`", "'", ",", "$", "*", "(", "_"]
 
-UNI = ["é", "€", "\U0001f600", " ", "​", "\ud55c"]  # last: U+D55C, UTF-8 lead byte 0xED like the encoded surrogates
+UNI = ["é", "€", "\U0001f600", "\xa0", "\u200b", "\ud55c", "\u0430", "\u0161", "\u0125"]
+# U+D55C: UTF-8 lead byte 0xED (like encoded surrogates); U+0430 / U+0161 / U+0125: the low byte of the code point is an ASCII
+# '0' / 'a' / '%' (classes for C code that narrows a Py_UCS4)
 SURR = ["\ud800", "\udfff"]
 
 ESC = ["%41", "%7e", "%7E", "%2F", "%2f", "%2B", "%2b", "%26", "%3D", "%3B", "%3F", "%23", "%25", "%20", "%2E", "%2e",
@@ -22,7 +24,7 @@ ESC = ["%41", "%7e", "%7E", "%2F", "%2f", "%2B", "%2b", "%26", "%3D", "%3B", "%3
 CORE = ["a", "f", "F", "4", "g", ".", "/", "?", "#", "@", ":", "&", "=", "+", ";", " ", '"', "%", "é", "\U0001f600",
         "%41", "%2F", "%2b", "%26", "%3D", "%25", "%20", "%C3", "%A9", "%FF", "%e2"]
 
-DELIM = ["a", "1", ":", "/", "?", "#", "[", "]", "@", "%", " ", "\t", "\n", "+", ".", "//", "::1", "v1.x", "é", "\u0662"]
+DELIM = ["a", "1", ":", "/", "?", "#", "[", "]", "@", "%", " ", "\t", "\n", "+", ".", "//", "::1", "v1.x", "é", "\u0662", ":080"]
 
 SEG = [".", "..", "", "a", ".a", "a.", "..a", "%2E", "%2e%2E", ".%2E", "b", "a%20b", "a%2Fb", ";p"]
 
@@ -30,7 +32,8 @@ SEG = [".", "..", "", "a", ".a", "a.", "..a", "%2E", "%2e%2E", ".%2E", "b", "a%2
 UNQ = ["%41", "%61", "%2F", "%2f", "%25", "%2B", "%2b", "%26", "%3D", "%3B", "%20", "%00", "%7F",
        "%C3", "%A9", "%c3", "%a9", "%E2", "%82", "%AC", "%F0", "%9F", "%98", "%80",
        "%FF", "%C0", "%ED", "%A0", "%E0", "%F4", "%90",
-       "%", "%4", "%zz", "a", "+", " ", "/", "é", "&", "=", ";"]
+       "%", "%4", "%zz", "a", "+", " ", "/", "é", "&", "=", ";",
+       "\u0663", "%\u0663\u0664", "%4\uff11"]   # non-ASCII decimal digits are not hex digits
 
 
 def words(alpha, maxlen, minlen=0):
